@@ -349,7 +349,11 @@ func runC03(c *CaseCtx) *CaseResult {
 			// a second root at the temporary address: lives in memory only, is never written
 			if c.Case%5 == 0 {
 				var err error
-				tempRoot, err = w.NewRootArray(atree.AddressUndefined, w.newTI(false))
+				if c.Case%10 == 0 {
+					tempRoot, err = w.NewRootMap(atree.AddressUndefined, w.newTI(false), nil)
+				} else {
+					tempRoot, err = w.NewRootArray(atree.AddressUndefined, w.newTI(false))
+				}
 				if err != nil {
 					return err
 				}
